@@ -5,7 +5,8 @@ import random
 
 import z3
 
-from harness.common import Ctx, byte_obligation, generic_in_process, mi, read_scenario
+from harness.common import Ctx, byte_obligation, mi, read_scenario
+from oracles.mem import SymMem, SymOpaque
 from oracles import vdi as spec
 from symx import core, files, layouts, loader
 from symx.core import bvval as V
@@ -65,12 +66,11 @@ def read_task(prop, cfg, tier, seed):
     bs = cfg["block_size"]
     N = cfg.get("n_blocks", 1)
     has_parent = bool(cfg.get("has_parent"))
-    core.set_width(72)
+    core.set_width(cfg.get("W", 72))
     m = load()
     cfg = dict(cfg)
     cfg.setdefault("pins", {})
     ctx = Ctx(prop, "vdi.read", cfg, tier, seed, engine_kw=dict(max_decisions=cfg.get("max_decisions", 400)))
-    ctx.replay_in_process = generic_in_process
     rng = random.Random(seed)
     touched = N + 1
     fsize = 1 << 62
@@ -101,25 +101,26 @@ def read_task(prop, cfg, tier, seed):
         for k in range(touched):
             e = files.word_at("img", hdr_blocks_off + 4 * (b0 + k), 4, "le", signed=True)
             E.assume(e >= -2)
-        vars_ = dict(offset=core.bv(offset), length=core.bv(length), disk_size=core.bv(disk_size),
-                     blocks_off=core.bv(hdr_blocks_off), data_off=core.bv(hdr_data_off), nblocks=core.bv(nblocks))
-        j = z3.BitVec("j", core.S.W)
-        vars_["j"] = j
+        j = E.var("j", 0, 1 << 50)
+        vars_ = dict(offset=offset, length=length, disk_size=disk_size, blocks_off=hdr_blocks_off, data_off=hdr_data_off,
+                     nblocks=nblocks, j=j)
         explen = core.sym_min(length, disk_size - offset) if cfg.get("tail") else length
+        mem = SymMem("img")
+        par = SymOpaque("parent") if has_parent else None
 
-        def spec_at(model, g, env):
-            return spec.guest_byte(V(g), V(mi(model, hdr_blocks_off)), V(mi(model, hdr_data_off)), bs, has_parent)
+        def spec_at(model, g, mems, ops):
+            return spec.guest_byte(g, mi(model, hdr_blocks_off), mi(model, hdr_data_off), bs, mems["img"], ops.get("parent"))
 
         ctx.scenario = read_scenario(
             ctx, E, vars_, entry="vdi", params=lambda mo: dict(has_parent=has_parent),
             call=lambda mo: ["_read", mi(mo, offset), mi(mo, length)], total=lambda mo: mi(mo, explen),
             g0=lambda mo: mi(mo, offset), spec_at=spec_at, unit=bs, rng=rng, j=j,
-            opaque=("parent",) if has_parent else (), prefer=[core.bv(nblocks) <= V(1 << 20)] + ([core.bv(length) <= V(16 << 20)] if bs <= (4 << 20) else []))
+            opaque=("parent",) if has_parent else (),
+            prefer=[nblocks <= 1 << 20] + ([length <= 16 << 20] if bs <= (4 << 20) else []))
         obj = m.VDI(fh, parent)
         res = obj._read(offset, length)
-        sv = spec.guest_byte(core.bv(offset) + j, core.bv(hdr_blocks_off), core.bv(hdr_data_off), bs, has_parent)
-        bad = byte_obligation(res, j, core.bv(explen), sv)
-        bad = z3.Or(bad, core.bv(obj.size) != core.bv(disk_size))
+        sv = spec.guest_byte(offset + j, hdr_blocks_off, hdr_data_off, bs, mem, par)
+        bad = byte_obligation(res, j, explen, sv, extra=[obj.size != disk_size])
         if ctx.obligation(bad, "read differs from the guest-visible content"):
             ctx.witness()
 
